@@ -314,7 +314,10 @@ def observe_tool(case):
             env_up, status = task.do(Env(), config)
             obs['status'] = TaskStatus(status).name
             if log_key not in env_up['task']:
-                obs['status'], obs['exc'] = 'NONE', 'no %s in the result' % log_key
+                if obs['status'] == 'FAILED':
+                    obs['raised'] = True          # do() itself reports that the tool could not be started: no result, no log
+                else:
+                    obs['status'], obs['exc'] = 'NONE', 'no %s in the result' % log_key
         except Exception as ex:  # pylint: disable=broad-except
             obs['raised'] = True
             obs['exc'] = type(ex).__name__
@@ -393,6 +396,8 @@ def _run_agrees(st, obs):
             problems.append('DoneIffAllZero')
         if obs['rcs'] != exp['rcs']:
             problems.append('CodesOfRun')
+    elif exp['raised'] and st['mode'] == 'direct' and obs['raised'] and obs['status'] == 'FAILED':
+        pass        # do() reports the failure itself, without a result (no return codes / no log): as good as raising
     else:
         if obs['raised'] != exp['raised'] or obs['status'] != exp['status']:
             problems.append('DoneIffAllZero' if 'DONE' in (obs['status'], exp['status']) else 'FailedOtherwise')
@@ -538,7 +543,10 @@ def _observe_family(case, root):
             try:
                 env_up, status = task.do(Env(), config)
                 members[j]['status'] = TaskStatus(status).name
-                entries[j] = env_up[names[j]]
+                if ('return_codes' if via == 'run' else log_key) in env_up[names[j]]:
+                    entries[j] = env_up[names[j]]
+                else:
+                    members[j]['raised'] = True      # the task ended without a result (as in the scheduler branch below): third audit, benign3-C19
             except Exception as ex:  # pylint: disable=broad-except
                 members[j]['raised'] = True
                 members[j]['exc'] = type(ex).__name__
